@@ -13,6 +13,7 @@ import z3
 from .core import CTX, SB, SV, Unsupported
 
 _seq = [0]
+REDRAW_LIMIT = 3      # a rejection-sampling loop is explored up to this many draws from one call site
 
 
 def _shape(size):
@@ -27,14 +28,20 @@ def choose(k, label):
     """Nondeterministic choice of an integer in range(k) by forking; recorded as input `label`."""
     if k <= 0:
         raise ValueError("empty choice")
+    cnt = CTX.notes.setdefault("choose_count", {})
+    cnt[label] = cnt.get(label, 0) + 1
+    if cnt[label] > CTX.notes.get("redraw_limit", REDRAW_LIMIT):
+        from .core import PathPruned
+        raise PathPruned(label)
     idx = CTX.choose(k)
     M = CTX.notes.get("M")
+    seq = len(CTX.notes.setdefault("draws", []))
+    name = f"draw{seq:03d}"
     if M is not None:
-        name = f"draw.{label}.{len(CTX.notes.setdefault('draws', []))}"
         c = z3.Int(name)
         M.inputs[name] = c
         CTX.assume(c == idx)
-    CTX.notes.setdefault("draws", []).append((label, idx))
+    CTX.notes["draws"].append((name, idx))
     return idx
 
 
@@ -49,28 +56,29 @@ class SymGenerator:
     def _log(self, kind):
         CTX.notes.setdefault("rng_log", []).append((self.tag, kind))
 
-    def _fresh(self, kind, lo=None, hi=None, hi_strict=True):
+    def _fresh(self, kind, lo=None, hi=None, hi_strict=True, lo_strict=True):
         M = CTX.notes.get("M")
         self.count += 1
-        name = f"draw.{self.tag}.{kind}.{self.count}.{len(CTX.notes.setdefault('draws', []))}"
+        name = f"draw{len(CTX.notes.setdefault('draws', [])):03d}"
         CTX.notes["draws"].append((name, None))
         c = z3.Real(name)
         if M is not None:
             M.inputs[name] = c
+        # continuous distributions: the probability-zero end points of the support are excluded (A6)
         if lo is not None:
-            CTX.assume(c >= lo)
+            CTX.assume(c > lo if lo_strict else c >= lo)
         if hi is not None:
             CTX.assume(c < hi if hi_strict else c <= hi)
         return SV(t=c)
 
-    def _arr(self, size, kind, lo=None, hi=None, hi_strict=True):
+    def _arr(self, size, kind, lo=None, hi=None, hi_strict=True, lo_strict=True):
         from . import symnp
         sh = _shape(size)
         if sh is None:
-            return self._fresh(kind, lo, hi, hi_strict)
+            return self._fresh(kind, lo, hi, hi_strict, lo_strict)
         a = _np.empty(sh, dtype=object)
         for idx in _np.ndindex(*sh):
-            a[idx] = self._fresh(kind, lo, hi, hi_strict)
+            a[idx] = self._fresh(kind, lo, hi, hi_strict, lo_strict)
         return a.view(symnp.VArr)
 
     # -- continuous --------------------------------------------------------------------------
@@ -84,15 +92,15 @@ class SymGenerator:
 
     def triangular(self, left, mode, right, size=None):
         self._log("triangular")
-        return self._arr(size, "triangular", Fraction(left), Fraction(right), hi_strict=False)
+        return self._arr(size, "triangular", Fraction(left), Fraction(right), hi_strict=True)
 
     def beta(self, a, b, size=None):
         self._log("beta")
-        return self._arr(size, "beta", 0, 1, hi_strict=False)
+        return self._arr(size, "beta", 0, 1, hi_strict=True)
 
     def poisson(self, lam=1.0, size=None):
         self._log("poisson")
-        return self._arr(size, "poisson", 0, None)
+        return self._arr(size, "poisson", 0, None, lo_strict=False)
 
     # -- discrete (enumerated) ---------------------------------------------------------------
     def integers(self, low, high=None, size=None, **kw):
@@ -130,7 +138,10 @@ class _ModuleRandom:
         self._global = None
 
     def default_rng(self, seed=None):
-        return SymGenerator("rng")
+        g = SymGenerator("rng")
+        g.seed = seed
+        g.created_in_call = CTX.notes.get("in_generator_call", False)
+        return g
 
     def choice(self, a, size=None, **kw):
         from . import symnp
